@@ -16,6 +16,23 @@ PROFILE = {"fail": 0.3, "cancel": True, "cancel_p": 0.08, "deps": True, "multi_s
            "gate_p": 0.4, "block_res_p": 0.0, "resolver_p": 0.8, "block_workers": [1], "modes": ["block", "percall", "percall"]}
 
 CORPUS = [
+    # D36 witness: the input fails while a shutdown is already draining the resolver (one block-allocation worker: its thread ends
+    # with the failure, the inner executor is dead): the parked dependents still fail with the input's exception
+    {"executor": {"backend": "local", "block_allocation": True, "max_workers": 1, "disable_dependencies": False},
+     "calls": [{"base": 1, "fail": "value", "gate": 0, "args": [], "kwargs": {}}, {"base": 10, "args": [{"f": 0}], "kwargs": {}},
+               {"base": 100, "args": [{"f": 1}], "kwargs": {}}],
+     "script": [{"c": "submit"}, {"c": "submit"}, {"c": "submit"}, {"c": "wait_enter", "i": 0}, {"c": "shutdown", "wait": False, "cancel": False},
+                {"c": "sleep", "ms": 150}, {"c": "release", "g": 0}],
+     "gates": [0], "perturb": {}, "seed": 9, "timeout": 20, "settle": 6},
+    # an input that fails with StopIteration (special inside generators and comprehensions): positional, keyword and list dependents
+    # all fail with that very exception
+    {"executor": {"backend": "local", "block_allocation": False, "max_cores": 2, "disable_dependencies": False},
+     "calls": [{"base": 1, "fail": "stop", "gate": 0, "args": [], "kwargs": {}}, {"base": 10, "args": [{"f": 0}], "kwargs": {}},
+               {"base": 20, "args": [], "kwargs": {"k": {"f": 0}}}, {"base": 30, "args": [{"l": [{"v": 1}, {"f": 0}]}], "kwargs": {}},
+               {"base": 100, "args": [], "kwargs": {}}],
+     "script": [{"c": "submit"}, {"c": "submit"}, {"c": "submit"}, {"c": "submit"}, {"c": "submit"}, {"c": "sleep", "ms": 20}, {"c": "release", "g": 0},
+                {"c": "shutdown", "wait": True, "cancel": False}],
+     "gates": [0], "perturb": {}, "seed": 8, "timeout": 20, "settle": 6},
     # D5 witness: the input fails after the dependent was parked; an unrelated call must still finish (per-call mode)
     {"executor": {"backend": "local", "block_allocation": False, "max_cores": 2, "disable_dependencies": False},
      "calls": [{"base": 1, "fail": "user", "gate": 0, "args": [], "kwargs": {}}, {"base": 10, "args": [{"f": 0}], "kwargs": {}},
